@@ -76,3 +76,30 @@ func init() {
 	m.Rule += " Half of the runs take the server setting and the first tunnel's capability value from the seed (cell = seed mod 262144: bits 0-15 the value, bits 16-17 the setting), so that 262144 consecutive seeds visit every cell of {4 settings} x {65536 values} once; the thorough tier's 1.5 million seeds cover the product several times, the quick tier a deterministic slice of it."
 	propMeta["C17"] = m
 }
+
+// Wave 5 additions (seeded/README.md, "Wave 5").
+var addedRulesW5 = map[string]string{
+	"C01": " 1 run in 10 uses one connection id for three connections in a row: a legacy RDG_OUT_DATA request that is never completed, a websocket connection that reaches tunnel authorisation and leaves, a websocket connection whose first packet is a channel create (must be refused).",
+	"C02": " A third of the runs use a provider whose access tokens are signed JWTs (only the provider can say whether one is still honoured).",
+	"C04": " The login may have come through the same proxy (same peer address) for another forwarded client.",
+	"C05": " Overlapping Basic requests include pairs whose user+password read the same when written one after the other; legacy pairs send RDG_OUT_DATA with correct credentials and RDG_IN_DATA (same connection id) with a wrong password, another user's, or none.",
+	"C06": " 1 run in 5 (without a host-side ending) keeps the host's receive window closed for 2-10 s while the client sends everything and then closes the channel; on websocket 1 run in 6 sends the whole client stream in one message; a valid step that is never answered or is refused counts as 'stream not carried'.",
+	"C07": " Further special situations: two NTLM-authenticated legacy tunnels whose (user, connection id) pairs collide when concatenated; a legacy client that sends RDG_IN_DATA before RDG_OUT_DATA (refused; its own fate is ignored).",
+	"C08": " One segmentation kind cuts a single packet into 33-120 pieces.",
+	"C12": " Query tokens of the 'expired' kind expired 90 s to 10 min ago; client addresses include non-canonical spellings (IPv4-mapped, upper-case hex, fully written zero groups, leading zeros), forwarded in X-Forwarded-For.",
+	"C13": " Failure kind 'claim-name-in-other-case' (UPN, Preferred_Username, ...: other claims, no user name).",
+	"C14": " Faults: the user database takes 2.5-4 s over one look-up (followed by an insider message on the same session); bursts of 5-8 failed attempts for one user from sessions of their own, after which the user negotiates and answers correctly and must be authenticated.",
+	"C15": " User names include BEL, VT, ESC, DEL and non-printable astral characters.",
+	"C16": " Refused tunnel-authorisation responses are checked against the configured flags and timeout as well; 1 run in 5 adds the history 'a host that accepted a channel goes down, the next channel create for it is not accepted' (within seconds of simulated time).",
+	"C17": " A quarter of the tunnels pipeline: the handshake travels in one transport message with the packets that follow it.",
+	"C18": " Half of the key-substitution runs enable the optional user token with a drawn user-token key and PAA encryption key; the issued file must carry a five-segment user token.",
+	"C20": " KDC behaviour 'drip' (reply in 6-10 pieces, 1-4 s apart: longer than the proxy waits); UDP replies of 4096, 4097, 9000 and 30000 bytes.",
+}
+
+func init() {
+	for id, a := range addedRulesW5 {
+		m := propMeta[id]
+		m.Rule += a
+		propMeta[id] = m
+	}
+}
